@@ -138,6 +138,8 @@ func runC17(c *Ctx) {
 
 	rulePair(c)
 	ruleReset(c, guard)
+	// registration, deregistration and scrape are each one critical section (lookup-then-insert across an unlock loses a tunnel)
+	ruleAtomic(c, "ATOMIC", map[string]bool{"(*prometheus.tunnelTimeMetrics).startConnection": true, "(*prometheus.tunnelTimeMetrics).stopConnection": true, "(*prometheus.tunnelTimeMetrics).Collect": true})
 	// every authenticated TCP connection starts its tunnel (and only those): the authentication report is made on every
 	// path from the authentication-success edge, only there, at most once
 	if a := findTCP(c, "STARTCALL"); a != nil {
